@@ -151,6 +151,7 @@ class RegexParser:
         """
         self.pos = 0
         self.group_count = 0
+        self.max_backref = 0
 
         if not self.pattern:
             return Alternative([]), 1  # Empty pattern matches empty string
@@ -161,6 +162,9 @@ class RegexParser:
             raise RegExpError(
                 f"Unexpected character '{self.pattern[self.pos]}' at position {self.pos}"
             )
+
+        if self.max_backref > self.group_count:
+            raise RegExpError(f"Invalid backreference \\{self.max_backref}")
 
         return ast, self.group_count + 1  # +1 for group 0 (full match)
 
@@ -480,9 +484,9 @@ class RegexParser:
             while self._peek() is not None and self._peek().isdigit():
                 num += self._advance()
             group_num = int(num)
-            if group_num > self.group_count:
-                # Might be octal or invalid - treat as literal for now
-                raise RegExpError(f"Invalid backreference \\{group_num}")
+            # A reference may precede its group (it then matches empty), so
+            # whether the group exists is only known once the pattern is parsed
+            self.max_backref = max(self.max_backref, group_num)
             return Backref(group_num)
 
         # Unicode escape
